@@ -146,4 +146,115 @@ theorem framesJson_total (pw : PW) (fs : List FrameM)
     obtain ⟨js, hjs⟩ := ih (fun a ha => h a (by simp [ha])) (i0 + 1)
     exact ⟨j :: js, by simp [framesJson, obind, hj, hjs]⟩
 
+/-! ## digits -/
+
+theorem digitChar_dec : ∀ d, d < 10 → isDigit (digitChar d) = true ∧ decVal (digitChar d) = d := by
+  decide
+theorem digitChar_hex : ∀ d, d < 16 →
+    isHexLower (digitChar d) = true ∧ hexVal (digitChar d) = d ∧ (digitChar d = '0' → d = 0) := by
+  decide
+theorem digitChar_dec0 : ∀ d, d < 10 → (digitChar d = '0' → d = 0) := by decide
+
+theorem valB_snoc (b : Nat) (dv : Char → Nat) (ds : List Char) (c : Char) :
+    valB b dv (ds ++ [c]) = valB b dv ds * b + dv c := by
+  simp [valB, List.foldl_append]
+
+theorem digitsB_eq (b n : Nat) :
+    digitsB b n = if n < b ∨ b < 2 then [digitChar n] else digitsB b (n / b) ++ [digitChar (n % b)] := by
+  rw [digitsB]
+  split <;> rfl
+
+/-- the digits denote the number -/
+theorem valB_digitsB (b : Nat) (dv : Char → Nat) (hb : 2 ≤ b) (hdv : ∀ d, d < b → dv (digitChar d) = d) :
+    ∀ n, valB b dv (digitsB b n) = n := by
+  intro n
+  induction n using Nat.strongRecOn with
+  | _ n ih =>
+    rw [digitsB_eq]
+    split
+    · rename_i h
+      have : n < b := by omega
+      simp [valB, hdv n this]
+    · rename_i h
+      have hn : ¬ n < b := fun x => h (Or.inl x)
+      have hlt : n / b < n := Nat.div_lt_self (by omega) (by omega)
+      rw [valB_snoc, ih _ hlt, hdv _ (Nat.mod_lt _ (by omega))]
+      exact Nat.div_add_mod' n b
+
+theorem digitsB_all (b : Nat) (P : Char → Bool) (hb : 2 ≤ b) (hP : ∀ d, d < b → P (digitChar d) = true) :
+    ∀ n, (digitsB b n).all P = true := by
+  intro n
+  induction n using Nat.strongRecOn with
+  | _ n ih =>
+    rw [digitsB_eq]
+    split
+    · rename_i h
+      have : n < b := by omega
+      simp [hP n this]
+    · rename_i h
+      have hn : ¬ n < b := fun x => h (Or.inl x)
+      have hlt : n / b < n := Nat.div_lt_self (by omega) (by omega)
+      simp only [List.all_append, ih _ hlt, List.all_cons, hP _ (Nat.mod_lt _ (by omega)),
+        List.all_nil, Bool.and_self]
+
+/-- first digit: no leading zero except for the number 0 itself -/
+theorem digitsB_head (b : Nat) (hb : 2 ≤ b) :
+    ∀ n, ∃ d r, digitsB b n = digitChar d :: r ∧ d < b ∧ (d = 0 → n = 0 ∧ r = []) := by
+  intro n
+  induction n using Nat.strongRecOn with
+  | _ n ih =>
+    rw [digitsB_eq]
+    split
+    · rename_i h
+      have : n < b := by omega
+      exact ⟨n, [], rfl, this, fun h0 => ⟨h0, rfl⟩⟩
+    · rename_i h
+      have hn : ¬ n < b := fun x => h (Or.inl x)
+      have hlt : n / b < n := Nat.div_lt_self (by omega) (by omega)
+      obtain ⟨d, r, hd, hdb, h0⟩ := ih _ hlt
+      refine ⟨d, r ++ [digitChar (n % b)], by rw [hd]; rfl, hdb, ?_⟩
+      intro hd0
+      have := (h0 hd0).1
+      have : 0 < n / b := Nat.div_pos (by omega) (by omega)
+      omega
+
+theorem digitsB_length_le (b : Nat) (hb : 2 ≤ b) :
+    ∀ n w, 1 ≤ w → n < b ^ w → (digitsB b n).length ≤ w := by
+  intro n
+  induction n using Nat.strongRecOn with
+  | _ n ih =>
+    intro w hw hlt
+    rw [digitsB_eq]
+    split
+    · simpa using hw
+    · rename_i h
+      have hn : ¬ n < b := fun x => h (Or.inl x)
+      have hdl : n / b < n := Nat.div_lt_self (by omega) (by omega)
+      cases w with
+      | zero => omega
+      | succ w =>
+        cases w with
+        | zero => simp at hlt; omega
+        | succ w =>
+          have : n / b < b ^ (w + 1) := by
+            rw [Nat.div_lt_iff_lt_mul (by omega)]
+            rw [Nat.pow_succ] at hlt
+            exact hlt
+          have := ih _ hdl (w + 1) (by omega) this
+          simp only [List.length_append, List.length_cons, List.length_nil]
+          omega
+
+theorem digitsB_ne_nil (b n : Nat) : digitsB b n ≠ [] := by
+  rw [digitsB_eq]
+  split <;> simp
+
+theorem valB_zeros (b : Nat) (dv : Char → Nat) (h0 : dv '0' = 0) (k : Nat) (ds : List Char) :
+    valB b dv (List.replicate k '0' ++ ds) = valB b dv ds := by
+  induction k with
+  | zero => simp
+  | succ k ih =>
+    simp only [List.replicate_succ, List.cons_append]
+    simp only [valB, List.foldl_cons, Nat.zero_mul, h0, Nat.add_zero] at ih ⊢
+    exact ih
+
 end MdModel.Json
